@@ -3,6 +3,8 @@
 EXTENDS ModelObj
 CONSTANT Depth
 ValsM101 == {-1, 0, 1}
+Vals01 == {0, 1}
+StaleOps == {"setitem", "toenum", "refresh", "copy"}
 ValsM1012 == {-1, 0, 1, 2}
 LabelsInt == {0, 2}
 DepthBound == TLCGet("level") <= Depth
